@@ -295,6 +295,31 @@ impl Property for C13 {
                         prog.items[at] = Item::Raw(format!("#ruledef zqm\n{{\n    zqemit {{x: u8}} => 0x77 @ x\n    zqmac {{x}} => asm{}\n    {{\n        {}\n        {}\n    }}\n}}\nzqmac 1", comment, l1, l2));
                         fault_line_offset = off;
                         kind = "asm-block-faulty-substitution";
+                    } else if crate::engine::gen_version() >= 5 && t.chance(1, 3) {
+                        // v5: a string literal of generated content (ASCII, 2/3/4-byte characters, valid escapes) that
+                        // carries ONE invalid escape sequence somewhere, in a directive that reads the string
+                        let plain: &[&str] = &["a", "Zq", " ", "0", "x41", "u", "{", "}", "'", "\u{e9}", "\u{ef}", "\u{3b1}\u{3b2}", "\u{4e16}\u{754c}", "\u{20ac}", "\u{1f600}", "\u{2014}"];
+                        let good: &[&str] = &["\\n", "\\t", "\\r", "\\0", "\\\\", "\\'", "\\x41", "\\x7f", "\\u{e9}", "\\u{1f600}", "\\u{0}"];
+                        let bad: &[&str] = &["\\q", "\\z9", "\\xzz", "\\x8f", "\\x4g", "\\ux", "\\u{12g}", "\\u{110000}", "\\u{d800}", "\\u{1234567}", "\\\u{e9}", "\\\u{4e16}", "\\ "];
+                        let mut lit = String::from("\"");
+                        let n_before = t.urange(0, 6);
+                        for _ in 0..n_before {
+                            lit.push_str(if t.chance(1, 4) { *t.pick(good) } else { *t.pick(plain) });
+                        }
+                        lit.push_str(*t.pick(bad));
+                        let n_after = t.urange(0, 3);
+                        for _ in 0..n_after {
+                            lit.push_str(if t.chance(1, 4) { *t.pick(good) } else { *t.pick(plain) });
+                        }
+                        lit.push('"');
+                        let txt = match t.draw(4) {
+                            0 => format!("#d {}", lit),
+                            1 => format!("zq_str = {}", lit),
+                            2 => format!("#d8 strlen({})", lit),
+                            _ => format!("#d utf16le({}), 0x00", lit),
+                        };
+                        prog.items[at] = Item::Raw(txt);
+                        kind = "malformed-directive:invalid-escape-in-string";
                     } else if crate::engine::gen_version() >= 2 && t.chance(1, 6) {
                         let txt = *t.pick(&["#d8 strlen(\n    5)", "#d8 le(\n    5)", "#d16 utf16le(\n    0x41)", "#d8 sizeof(\n    7)", "#d8 1 + strlen(\n    0x2)"]);
                         prog.items[at] = Item::Raw(txt.to_string());
